@@ -1,0 +1,160 @@
+//go:build verif
+
+package dcp
+
+// Contracts checked by /verif (govc). Comment-only: no executable code.
+// Root package: ordered teardown (C13, C05), start-up type switch (C15), version gates (C18).
+
+//@ iface stream.Stream.Save
+//@ params recv
+//@ modifies nothing
+
+//@ iface stream.Stream.Close
+//@ params recv closeWithCancel
+//@ modifies nothing
+
+//@ iface couchbase.Client.DcpClose
+//@ params recv
+//@ modifies nothing
+
+//@ iface couchbase.Client.Close
+//@ params recv
+//@ modifies nothing
+
+//@ iface couchbase.HealthCheck.Stop
+//@ params recv
+//@ modifies nothing
+
+//@ iface stream.VBucketDiscovery.Close
+//@ params recv
+//@ modifies nothing
+
+//@ iface EventBus.Bus.Unsubscribe
+//@ params recv topic handler
+//@ modifies nothing
+
+//@ iface stream.LeaderElection.Stop
+//@ params recv
+//@ modifies nothing
+
+//@ iface servicediscovery.ServiceDiscovery.StopMonitor
+//@ params recv
+//@ modifies nothing
+
+//@ iface servicediscovery.ServiceDiscovery.StopHeartbeat
+//@ params recv
+//@ modifies nothing
+
+//@ iface api.API.UnregisterMetricCollectors
+//@ params recv
+//@ modifies nothing
+
+//@ func (*dcp).close
+//@ props C05 C13 C19
+//@ requires s != nil && s.config != nil && s.vBucketDiscovery != nil && s.stream != nil && s.bus != nil && s.client != nil && logger.Log != nil
+//@ requires !s.config.HealthCheck.Disabled ==> s.healthCheck != nil
+//@ requires s.config.LeaderElection.Enabled ==> s.leaderElection != nil && s.serviceDiscovery != nil
+// apiShutdown (capacity 1) is written only here, and close runs once per Start (check.closes_once): it is empty on entry
+//@ requires s.apiShutdown != nil
+//@ domain chcap(s.apiShutdown) >= 1 && chlen(s.apiShutdown) == 0
+//@ let auto = s.config.Checkpoint.Type == stream.CheckpointTypeAuto
+//@ ensures.final_save[C05,C13] auto ==> calls(stream.Stream.Save) == 1 && arg(stream.Stream.Save, 0, recv) == s.stream && ts(stream.Stream.Save, 0) < ts(stream.Stream.Close, 0)
+//@ ensures.manual_no_save[C05] !auto ==> calls(stream.Stream.Save) == 0
+//@ ensures.stream_closed[C13] calls(stream.Stream.Close) == 1 && arg(stream.Stream.Close, 0, recv) == s.stream && arg(stream.Stream.Close, 0, 1) == s.closeWithCancel
+//@ ensures.health_stopped[C13,C19] !s.config.HealthCheck.Disabled ==> calls(couchbase.HealthCheck.Stop) == 1 && arg(couchbase.HealthCheck.Stop, 0, recv) == s.healthCheck && ts(couchbase.HealthCheck.Stop, 0) < ts(couchbase.Client.Close, 0)
+//@ ensures.discovery_closed[C13] calls(stream.VBucketDiscovery.Close) == 1
+//@ ensures.unsubscribed[C13] calls(EventBus.Bus.Unsubscribe) == 1 && arg(EventBus.Bus.Unsubscribe, 0, topic) == helpers.MembershipChangedBusEventName && ts(EventBus.Bus.Unsubscribe, 0) < ts(stream.Stream.Close, 0)
+//@ ensures.membership_stopped[C13] s.config.LeaderElection.Enabled ==> calls(stream.LeaderElection.Stop) == 1 && calls(servicediscovery.ServiceDiscovery.StopMonitor) == 1 && calls(servicediscovery.ServiceDiscovery.StopHeartbeat) == 1
+//@ ensures.connection_last[C13] calls(couchbase.Client.DcpClose) == 1 && calls(couchbase.Client.Close) == 1 && ts(stream.Stream.Close, 0) < ts(couchbase.Client.DcpClose, 0) && ts(couchbase.Client.DcpClose, 0) < ts(couchbase.Client.Close, 0)
+//@ nonblocking
+//@ modifies s.metricCollectors, chan(s.apiShutdown), calls(stream.Stream.Save), calls(stream.Stream.Close), calls(couchbase.HealthCheck.Stop), calls(stream.VBucketDiscovery.Close), calls(EventBus.Bus.Unsubscribe), calls(stream.LeaderElection.Stop), calls(servicediscovery.ServiceDiscovery.StopMonitor), calls(servicediscovery.ServiceDiscovery.StopHeartbeat), calls(couchbase.Client.DcpClose), calls(couchbase.Client.Close), calls(api.API.UnregisterMetricCollectors)
+
+// ---------- version gates at start-up (C18) ----------
+
+//@ pure verGE(v *couchbase.Version, a int, b int, c int) bool = lexGreater(v.Major, v.Minor, v.Patch, v.Build, a, b, c, 0) || (v.Major == a && v.Minor == b && v.Patch == c && v.Build == 0)
+
+//@ iface couchbase.HTTPClient.GetVersion
+//@ params recv
+//@ ensures result1 == nil ==> result0 != nil
+//@ modifies nothing
+
+//@ iface couchbase.HTTPClient.GetBucketInfo
+//@ params recv
+//@ ensures result1 == nil ==> result0 != nil
+//@ modifies nothing
+
+//@ iface couchbase.HTTPClient.Connect
+//@ params recv
+//@ modifies nothing
+
+//@ iface couchbase.Client.Connect
+//@ params recv
+//@ modifies nothing
+
+//@ iface couchbase.Client.DcpConnect
+//@ params recv useExpiryOpcode useChangeStreams
+//@ modifies nothing
+
+//@ func printConfiguration
+//@ trusted
+//@ modifies nothing
+
+//@ func newDcp
+//@ props C18
+//@ requires config != nil && logger.Log != nil
+//@ let version = ret(couchbase.HTTPClient.GetVersion, 0, 0)
+//@ let info = ret(couchbase.HTTPClient.GetBucketInfo, 0, 0)
+//@ ensures.expiry_gate[C18] calls(couchbase.Client.DcpConnect) == 1 ==> arg(couchbase.Client.DcpConnect, 0, 1) == verGE(version, 6, 5, 0)
+//@ ensures.change_streams_gate[C18] calls(couchbase.Client.DcpConnect) == 1 ==> arg(couchbase.Client.DcpConnect, 0, 2) == (info.StorageBackend == "magma" && verGE(version, 7, 2, 0))
+//@ ensures.connected_once[C18] result1 == nil ==> calls(couchbase.Client.DcpConnect) == 1 && calls(couchbase.HTTPClient.GetVersion) == 1 && calls(couchbase.HTTPClient.GetBucketInfo) == 1
+//@ ensures.carries_version[C18] result1 == nil ==> typeis(result0, "*dcp") && as(result0, "*dcp").version == version && as(result0, "*dcp").bucketInfo == info
+//@ modifies fields(config), calls(couchbase.Client.DcpConnect), calls(couchbase.Client.Connect), calls(couchbase.HTTPClient.GetVersion), calls(couchbase.HTTPClient.GetBucketInfo), calls(couchbase.HTTPClient.Connect)
+
+// ---------- start-up wiring (C15, C02, C11, C13, C19) ----------
+// Constructors of components that are verified elsewhere or not at all: thin trusted contracts
+// (a non-nil result, no write to the modelled heap).
+
+//@ extern tracing.NewTracerComponent
+//@ extern servicediscovery.NewServiceDiscovery
+//@ extern stream.NewLeaderElection
+//@ extern metric.NewMetricCollector
+//@ extern api.NewAPI
+//@ extern couchbase.NewHealthCheck
+//@ extern couchbase.NewCBMetadata
+//@ extern metadata.NewFSMetadata
+
+//@ iface couchbase.Client.GetNumVBuckets
+//@ params recv
+//@ modifies nothing
+
+//@ iface couchbase.Client.GetCollectionIDs
+//@ params recv scopeName collectionNames
+//@ modifies nothing
+
+//@ iface stream.Stream.Open
+//@ params recv
+//@ modifies nothing
+
+//@ iface couchbase.HealthCheck.Start
+//@ params recv
+//@ modifies nothing
+
+//@ iface EventBus.Bus.SubscribeAsync
+//@ params recv topic fn transactional
+//@ modifies nothing
+
+//@ func (*dcp).Start
+//@ props C15 C02 C11 C13 C19
+//@ requires s != nil && s.config != nil && s.client != nil && s.bus != nil && logger.Log != nil && s.version != nil
+//@ requires s.readyCh != nil && s.stopCh != nil && s.cancelCh != nil && s.apiShutdown != nil
+//@ let custom = old(s.metadata)
+//@ panics.unknown_metadata_type[C15] custom == nil && s.config.Metadata.Type != "couchbase" && s.config.Metadata.Type != "file"
+//@ check.readonly_wrapped[C02] s.config.Metadata.ReadOnly ==> dcalls("metadata.NewReadMetadata") == 1 && darg("stream.NewStream", 0, metadata) == dret("metadata.NewReadMetadata", 0, 0) && (custom != nil ==> darg("metadata.NewReadMetadata", 0, metadata) == custom)
+//@ check.writable_direct[C02] !s.config.Metadata.ReadOnly ==> dcalls("metadata.NewReadMetadata") == 0 && (custom != nil ==> darg("stream.NewStream", 0, metadata) == custom)
+//@ check.stream_wiring[C02,C18] dcalls("stream.NewStream") == 1 && darg("stream.NewStream", 0, client) == s.client && darg("stream.NewStream", 0, config) == s.config && darg("stream.NewStream", 0, version) == s.version && darg("stream.NewStream", 0, stopCh) == s.stopCh && darg("stream.NewStream", 0, vBucketDiscovery) == dret("stream.NewVBucketDiscovery", 0, 0)
+//@ check.rebalance_listener[C11] calls(EventBus.Bus.SubscribeAsync) >= 1 && arg(EventBus.Bus.SubscribeAsync, calls(EventBus.Bus.SubscribeAsync) - 1, topic) == helpers.MembershipChangedBusEventName && arg(EventBus.Bus.SubscribeAsync, calls(EventBus.Bus.SubscribeAsync) - 1, transactional) == true && isbound(ifaceval(arg(EventBus.Bus.SubscribeAsync, calls(EventBus.Bus.SubscribeAsync) - 1, fn)), "(*dcp).membershipChangedListener")
+//@ check.opened_before_listening[C11] calls(stream.Stream.Open) == 1 && ts(stream.Stream.Open, 0) < ts(EventBus.Bus.SubscribeAsync, calls(EventBus.Bus.SubscribeAsync) - 1)
+//@ check.health_started[C19] !s.config.HealthCheck.Disabled ==> calls(couchbase.HealthCheck.Start) == 1
+//@ check.health_off[C19] s.config.HealthCheck.Disabled ==> calls(couchbase.HealthCheck.Start) == 0
+//@ check.closes_once[C13] dcalls("dcp.(*dcp).close") == 1
+//@ modifies anything
